@@ -1,4 +1,5 @@
 import UberjobModel.Lemmas.PlanCall
+import UberjobModel.Lemmas.PlanRewire
 /-!
 # C02 — `run` returns exactly what direct evaluation of the call graph would return
 
@@ -164,6 +165,32 @@ theorem C02_exec_reads_arguments (st : PlanSt) (s s' : Nat → Val) (n : Nat)
   · rfl
   · exact h e he hd hk
 
+/-- **Rewiring by `_add_value_store` keeps the arguments.**  When the argument out-edges of node `n` are moved
+    to its read node `r` with their key unchanged (`rewire`; source pinned by `skeleton.rewireKeepsKey`), every
+    call `c` gets the same positional and keyword argument lists as before with `n` replaced by `r` at exactly the
+    same positions and under the same names (and the real code raises iff it raised before). -/
+theorem C02_rewire_preserves_args (es : List Edge) (n r c : Nat) :
+    getArgumentNodes (es.map (rewire n r)) c
+      = (getArgumentNodes es c).map (fun p => (p.1.map (ren n r), p.2.map (fun q => (q.1, ren n r q.2)))) :=
+  getArgumentNodes_rewire es n r c
+
+/-- **What the driver's `runResult` is**: a failure if some needed node has no value, otherwise the direct
+    evaluation `eval` of the output node (the table the driver fills is `eval`). -/
+theorem C02_run_value (st : PlanSt) (out : Nat) (ho : out < st.nodes.length)
+    (hn : ∀ n ∈ needed st out, n < st.nodes.length) :
+    runResult st out = if (needed st out).any (fun n => (eval st n).isFail) then .fail else eval st out := by
+  have e : ∀ n, n < st.nodes.length → (evalAll st st.nodes.length).getD n .fail = eval st n :=
+    fun n h => evalAll_getD st n _ h
+  have hany : (needed st out).any (fun n => ((evalAll st st.nodes.length).getD n .fail).isFail)
+      = (needed st out).any (fun n => (eval st n).isFail) := by
+    rw [Bool.eq_iff_iff]
+    simp only [List.any_eq_true]
+    constructor
+    · rintro ⟨n, hm, hf⟩; exact ⟨n, hm, by rw [← e n (hn n hm)]; exact hf⟩
+    · rintro ⟨n, hm, hf⟩; exact ⟨n, hm, by rw [e n (hn n hm)]; exact hf⟩
+  unfold runResult
+  simp only [hany, e out ho]
+
 /-- The builders keep the plan well-formed (every edge forward), starting from the empty plan. -/
 theorem C02_wf_preserved {st : PlanSt} (hwf : WF st) :
     WF ({} : PlanSt) ∧ (∀ v, WF (lit st v).1) ∧
@@ -219,6 +246,9 @@ example : admissibleB exSt2 [4, 1] = false := by decide
 -- set(args): elements equal by value collapse, the first object stays; dict(pairs): last value wins
 example : Val.pySet [.tuple (some 5) [.atom 7], .atom 1, .tuple (some 6) [.atom 7]] = [.tuple (some 5) [.atom 7], .atom 1] := by
   rfl
+-- rewiring: node 1 replaced by its read node 7 at the same positions / names
+example : getArgumentNodes (exSt2.edges.map (rewire 1 7)) 4 = some ([7, 0], [("zz", 7), ("a", 0), ("k", 7)]) := by decide
+example : runResult exSt2 4 = eval exSt2 4 := by rfl
 example : Val.pyDict [(.int 1, .atom 1), (.atom 2, .atom 2), (.int 1, .atom 3)] = [(.int 1, .atom 3), (.atom 2, .atom 2)] := by
   rfl
 
